@@ -216,8 +216,18 @@ pub fn uplink_drs(reg: Reg) -> Vec<u8> {
     }
 }
 
+/// LoRa rates the region defines at all: in the fixed plans also the 500 kHz rates DR8..DR13 (defined for
+/// downlinks; a device accepts them from `set_datarate` / LinkADRReq and then sends on the 500 kHz channels).
+fn defined_drs(reg: Reg) -> Vec<u8> {
+    let mut v = uplink_drs(reg);
+    if reg.fixed() {
+        v.extend(8..=13u8);
+    }
+    v
+}
+
 fn next_lower(reg: Reg, dr: u8) -> Option<u8> {
-    uplink_drs(reg).into_iter().filter(|d| *d < dr).max()
+    defined_drs(reg).into_iter().filter(|d| *d < dr).max()
 }
 
 fn n_class(n: u32) -> &'static str {
@@ -239,7 +249,13 @@ fn history(front: Front, reg: Reg, rng: &mut Prng, col: &mut Collector) {
         col.event("harness_session_json_rejected");
         return;
     };
-    let drs = uplink_drs(reg);
+    let mut drs = uplink_drs(reg);
+    // fixed plans, one history in six: the application (or the network before) has put the device on one of
+    // the rates above the gap in the plan's table (DR8..DR13): the next lower defined rate is below the gap
+    if reg.fixed() && rng.chance(1, 6) {
+        drs = (8..=13u8).collect();
+        col.event("histories_above_the_rate_gap");
+    }
     let dr0 = *rng.pick(&drs);
     dev.set_datarate(dr0);
     let mut adr = true;
